@@ -759,6 +759,17 @@ namespace bloch::compiler {
 
     // Statements
     std::unique_ptr<Statement> Parser::parseStatement() {
+        // Statements nest through blocks, branches, loop bodies and the branches of a ternary
+        // statement ('c ? c ? c ? ... : ... : ...' needs no bracket at all); the parser and the
+        // analyser recurse once per level.
+        constexpr int kMaxStatementDepth = 500;
+        struct StatementDepth {
+            int& depth;
+            explicit StatementDepth(int& d) : depth(d) { ++depth; }
+            ~StatementDepth() { --depth; }
+        } nesting(m_statementDepth);
+        if (m_statementDepth > kMaxStatementDepth)
+            reportError("statements are nested too deeply");
         if (check(TokenType::LBrace))
             return parseBlock();
 
@@ -1082,14 +1093,35 @@ namespace bloch::compiler {
             explicit DepthGuard(int& d) : depth(d) { ++depth; }
             ~DepthGuard() { --depth; }
         };
+
+        // An upper bound of the depth of the tree a parse call returns: one for its own node, one
+        // per operator chained in its loop, plus the deepest operand completed inside it (taken
+        // to hang at the bottom). 'slot' carries "deepest operand so far" from callee to caller,
+        // so '(((1)+1+...)+1+...)+1+...' adds up although each level returns before the next
+        // chain starts.
+        struct TreeDepth {
+            int& slot;
+            int outer;
+            int chained = 0;
+            explicit TreeDepth(int& s) : slot(s), outer(s) { slot = 0; }
+            int current() const { return 1 + chained + slot; }
+            int deeper() {
+                ++chained;
+                return current();
+            }
+            ~TreeDepth() { slot = std::max(outer, current()); }
+        };
     }  // namespace
 
     std::unique_ptr<Expression> Parser::parseAssignmentExpression() {
         DepthGuard guard(m_expressionDepth);
         if (m_expressionDepth > kMaxExpressionDepth)
             reportError("expression is nested too deeply");
+        TreeDepth built(m_operandDepth);
         // Right-associative assignment built on top of Pratt for the rest.
         std::unique_ptr<Expression> left = parsePrattExpression(0);
+        if (built.current() > kMaxExpressionDepth)
+            reportError("expression is nested too deeply");
 
         if (match(TokenType::Equals)) {
             std::unique_ptr<Expression> value = parseAssignmentExpression();
@@ -1136,15 +1168,18 @@ namespace bloch::compiler {
         DepthGuard guard(m_expressionDepth);
         if (m_expressionDepth > kMaxExpressionDepth)
             reportError("expression is nested too deeply");
+        TreeDepth built(m_operandDepth);
         std::unique_ptr<Expression> left = parsePrefixExpression();
+        if (built.current() > kMaxExpressionDepth)
+            reportError("expression is nested too deeply");
 
-        int chained = 0;  // every turn of the loop makes 'left' one level deeper
         while (true) {
             const Token& tok = peek();
             auto binding = infixBinding(tok.type);
             if (!binding || binding->lbp < minBp)
                 break;
-            if (++chained > kMaxExpressionDepth)
+            // every turn of the loop makes 'left' one level deeper
+            if (built.deeper() > kMaxExpressionDepth)
                 reportError("expression is nested too deeply");
 
             (void)advance();  // consume operator / postfix marker
